@@ -263,7 +263,8 @@ BatteryFor(bp, req, stay, V, P, pw, u) ==
     CASE bp \in {"none", "plain"} -> [type |-> "Battery", cap |-> req, init |-> 0, pw |-> pw]
       [] bp = "probe"  -> [type |-> "Battery", pw |-> pw] @@ Probe(req, stay, V, P, u)
       [] bp = "probe2" -> [type |-> "Linear2StageBattery", pw |-> pw, tsoc |-> 60] @@ Probe(req, stay, V, P, u)
-      [] bp = "fit"    -> [type |-> "Linear2StageBattery", pw |-> pw, fit |-> FitVerdict(req, stay, V, P)]
+      [] bp = "fit"    -> [type |-> "Linear2StageBattery", pw |-> pw, fit |-> FitVerdict(req, stay, V, P),
+                           mustfit |-> (req = 32 * V * stay * P /\ stay >= 1 /\ \E i \in 1..Len(Menu) : 5 * req <= 4 * Menu[i])]
 
 (***************************************************************************)
 (* Part B.2  ACN-Data document -> session  (get_evs + _convert_to_ev).      *)
@@ -420,6 +421,17 @@ BatteryCovers == (IsDoc \/ IsRow) /\ cfg.bp # "fit" =>
     /\ out.batt.cap - out.batt.init >= out.req
     /\ out.batt.init >= 0 /\ out.batt.cap >= out.batt.init
     /\ out.batt.pw = cfg.pw
+
+\* The request force_feasible produces when it binds - exactly what 32 A deliver during the stay -
+\* CAN be held by a two-stage battery of the menu whenever it is at most 80 % of that battery: started at
+\* transition_soc - request/capacity the battery stays in its constant-power stage for the whole stay and
+\* takes 32 A * V * stay exactly.  No enclosure is needed for this (it is the linear stage), so the verdict
+\* "nondecisive" of the general machinery (the request sits ON the feasibility boundary) does not excuse a
+\* refusal: the fit must answer.  (W*min: pw is in W, P in minutes; TAU = 4/5.)
+CapBinds(req, n, V, P) == n >= 1 /\ req = 32 * V * n * P
+BoundaryFits(req, n, V, P) == CapBinds(req, n, V, P) /\ \E i \in 1..Len(Menu) : 5 * req <= 4 * Menu[i]
+MustFit == (IsDoc /\ cfg.bp = "fit" /\ cfg.ff /\ cfg.pw = 32 * cfg.V) =>
+               (BoundaryFits(out.req, out.stay, cfg.V, cfg.P) => out.batt.fit.verdict \in {"feasible", "nondecisive"})
 
 \* ---- capacity fit
 WIDTH == 4096           \* 1.6e-5 SoC: the enclosure is at least this tight everywhere
